@@ -135,6 +135,7 @@ class Interp:
     # ------------------------------------------------------------------ paths
     def begin_path(self, ctx):
         self.ctx = ctx
+        ctx.interp = self
         self.body_mode = set()
         self.call_depth = 0
         from .ghost import Ghost
@@ -211,6 +212,7 @@ class Interp:
             self.exec_stmt(s, env)
 
     def exec_stmt(self, node, env):
+        self.cur_stmt = node
         m = getattr(self, "s_" + type(node).__name__, None)
         if m is None:
             raise OutsideSubset(f"statement {type(node).__name__} at {self.where(node)}")
@@ -686,8 +688,7 @@ class Interp:
         from .values import mk_bool
 
         ctx = self.ctx
-        if ctx.no_fork:
-            return None
+        outer = ctx.no_fork  # nested boolean operators are speculated as part of the outer one
         is_and = isinstance(node.op, ast.And)
         terms = []
         ctx.no_fork = True
@@ -708,7 +709,7 @@ class Interp:
         except (WouldFork, RaiseSig, OutsideSubset):
             return None
         finally:
-            ctx.no_fork = False
+            ctx.no_fork = outer
         if len(ctx.trace) != n_trace:
             return None
         if not terms:
@@ -955,6 +956,8 @@ class Interp:
     def truthy(self, v, node=None):
         from .values import deref
 
+        if node is not None and hasattr(node, "lineno"):
+            self.cur_stmt = node
         v = deref(v)
         if v is None or isinstance(v, (bool, int, float, str)):
             return bool(v)
